@@ -193,6 +193,36 @@ def gen_parse_inputs(g, h, n, kinds=None, malformed_ratio=0.35, with_padding=Tru
             out.append((e, img))
     return out
 
+def gen_header_sweep(g, entries=None, full=False):
+    """systematic small-scope sweep: every typed parser x total lengths 0..36 x counts around the body
+    capacity x padding bit with boundary final bytes (body bytes random)"""
+    out = []
+    ents = entries or ['app', 'bye', 'rr', 'sdes', 'sr', 'tfb', 'pfb']
+    for e in ents:
+        pt, mn = ENTRY_PT[e], ENTRY_MIN[e]
+        unit = {'bye': 4, 'rr': 24, 'sr': 24}.get(e)
+        for total in ([0, 1, 3] + list(range(4, 40, 4)) + [mn + 24, mn + 48, mn + 52]):
+            if total < 4:
+                out.append('parse %s %s' % (e, hx(g.rawbytes(total))))
+                continue
+            cap = (total - mn) // unit if unit and total >= mn else 0
+            counts = sorted(set(c & 31 for c in [0, 1, 2, cap - 1, cap, cap + 1, 31] if c >= 0))
+            for cnt in counts:
+                for pbit, last in [(0, None), (1, 0), (1, 1), (1, 4), (1, (total - mn) & 0xff), (1, (total - mn + 1) & 0xff)]:
+                    if not full and pbit and cnt not in (0, cap) :
+                        continue
+                    b = bytearray(g.rawbytes(total))
+                    b[0] = 0x80 | (0x20 if pbit else 0) | cnt
+                    b[1] = pt
+                    lf = total // 4 - 1
+                    b[2], b[3] = (lf >> 8) & 0xff, lf & 0xff
+                    if last is not None and total > 4:
+                        b[-1] = last
+                    out.append('parse %s %s' % (e, hx(b)))
+                    if cnt in (cap, cap + 1) and not pbit:
+                        out.append('parse packet %s' % hx(b))
+    return out
+
 # ------------------------------------------------------------------ round trips C02..C05
 
 class RoundTrip(Prop):
@@ -395,7 +425,7 @@ class C01(Prop):
             'inputs, random framed headers and raw FCI strings; non-trivial = distinct input not rejected by the version or '
             'type check')
     def cases(self, g, tier, h):
-        return gen_parse_mixed(g, h, 500 if tier == 'quick' else 20000, tier)
+        return gen_header_sweep(g, full=(tier != 'quick')) + gen_parse_mixed(g, h, 500 if tier == 'quick' else 20000, tier)
     def relevant(self, line, impl, model):
         return kind_of(line) == 'parse'
     def proj(self, line, obs):
@@ -433,7 +463,7 @@ class C08(Prop):
             'that passes the version and type checks')
     def cases(self, g, tier, h):
         n = 600 if tier == 'quick' else 25000
-        out = []
+        out = gen_header_sweep(g, full=(tier != 'quick'))
         for e, b in gen_parse_inputs(g, h, n, malformed_ratio=0.6):
             out.append('parse %s %s' % (e, hx(b)))
             if g.chance(0.4):
@@ -449,11 +479,11 @@ class C08(Prop):
         if ok_str(r):
             v, d = view_of(r) if not entry_of(line).startswith('custom') else ('custom', {})
             return ('ok', v, ser(d.get('hdr')) if d else r)
-        return ('err',)
+        return ('not-accepted',)
     def oracle(self, line, impl, model):
         r = impl.get('r', '')
         if not ok_str(r):
-            return [] if err_str(r) else ['parser did not return normally: ' + r[:100]]
+            return []   # rejected (or did not return normally, which is C01's business)
         e = entry_of(line)
         b = input_of(line)
         fails = []
@@ -514,9 +544,9 @@ class C18(Prop):
     rule = ('every parser (typed, generic, unknown, compound, report block, FCI) on mutated and random inputs; '
             'non-trivial = distinct rejected input')
     def cases(self, g, tier, h):
-        return gen_parse_mixed(g, h, 500 if tier == 'quick' else 20000, tier)
+        return gen_header_sweep(g, full=(tier != 'quick')) + gen_parse_mixed(g, h, 500 if tier == 'quick' else 20000, tier)
     def relevant(self, line, impl, model):
-        return kind_of(line) == 'parse' and (err_str(impl.get('r')) or err_str(model.get('r')))
+        return kind_of(line) == 'parse' and err_str(impl.get('r'))
     def proj(self, line, obs):
         r = obs.get('r', '')
         return (r if err_str(r) else 'ok',)
